@@ -2096,8 +2096,20 @@ fn run_net(transport: &str, lazy: bool, script: &str) -> String {
             NetAddr::Tcp(port, Some(sock))
         } else {
             let n = NET_SEQ.fetch_add(1, std::sync::atomic::Ordering::SeqCst);
-            NetAddr::Uds(std::env::temp_dir().join(format!("verif-c14-{}-{}.sock", std::process::id(), n)))
+            if transport == "udsl" {
+                // the socket is reached through a SYMLINKED directory that every new server generation re-points
+                // (`<base>/current -> v<g>`; a deployment that swaps releases): the channel must dial the path it was
+                // given each time, not what the path resolved to when the channel was built (seed C14g)
+                let base = std::env::temp_dir().join(format!("verif-c14-{}-{}.d", std::process::id(), n));
+                let _ = std::fs::remove_dir_all(&base);
+                let _ = std::fs::create_dir_all(base.join("v0"));
+                let _ = std::os::unix::fs::symlink("v0", base.join("current"));
+                NetAddr::Uds(base.join("current").join("sock"))
+            } else {
+                NetAddr::Uds(std::env::temp_dir().join(format!("verif-c14-{}-{}.sock", std::process::id(), n)))
+            }
         };
+        let symlinked = transport == "udsl";
         // the constructor the case names (`tcp` / `uds`: `Endpoint::from_shared`)
         let built = match &addr {
             NetAddr::Tcp(port, _) => c14_x::net_endpoint(transport, Some(format!("http://127.0.0.1:{}", port)), None),
@@ -2139,6 +2151,13 @@ fn run_net(transport: &str, lazy: bool, script: &str) -> String {
                             }));
                         }
                         NetAddr::Uds(path) => {
+                            if symlinked {
+                                // a new release directory, the link swapped over to it
+                                let base = path.parent().and_then(|p| p.parent()).map(|p| p.to_path_buf()).unwrap_or_default();
+                                let _ = std::fs::create_dir_all(base.join(format!("v{}", g)));
+                                let _ = std::fs::remove_file(base.join("current"));
+                                let _ = std::os::unix::fs::symlink(format!("v{}", g), base.join("current"));
+                            }
                             let _ = std::fs::remove_file(&*path);
                             let listener = match tokio::net::UnixListener::bind(&*path) {
                                 Ok(l) => l,
@@ -2234,6 +2253,11 @@ fn run_net(transport: &str, lazy: bool, script: &str) -> String {
         }
         if let NetAddr::Uds(path) = &addr {
             let _ = std::fs::remove_file(path);
+            if symlinked {
+                if let Some(base) = path.parent().and_then(|p| p.parent()) {
+                    let _ = std::fs::remove_dir_all(base);
+                }
+            }
         }
         out.join(" ")
     });
